@@ -345,6 +345,15 @@ static std::string iv_ops(Line const& l)
     return both(impl, oracle);
 }
 
+// calls f(integral_constant<size_t, I>) for the I < Max that equals v
+template <std::size_t Max, typename F>
+static bool with_const(std::size_t v, F&& f)
+{
+    return [&]<std::size_t... I>(std::index_sequence<I...>) {
+        return ((v == I ? (f(std::integral_constant<std::size_t, I>{}), true) : false) || ...);
+    }(std::make_index_sequence<Max>{});
+}
+
 // ---------------------------------------------------------------- string_view / span / array
 static std::string view_ops(Line const& l)
 {
@@ -387,6 +396,45 @@ static std::string view_ops(Line const& l)
         impl = done([&] { return units(sp.subspan(a, b)); });
         bool dyn = b == static_cast<std::size_t>(-1);
         oracle   = (a <= n && (dyn || b <= n - a)) ? okstr(subv(a, dyn ? n - a : b), e) : ASSERT;
+    } else if (op == "sp.first_t" || op == "sp.last_t") { // first<a>() / last<a>() on a span of dynamic extent, a < 7
+        bool fst = op == "sp.first_t";
+        impl = done([&] {
+            Vec o;
+            bool hit = with_const<7>(a, [&](auto c) { o = fst ? units(sp.template first<decltype(c)::value>()) : units(sp.template last<decltype(c)::value>()); });
+            if (!hit) std::exit(3);
+            return o;
+        });
+        oracle = a <= n ? okstr(fst ? subv(0, a) : subv(n - a, a), e) : ASSERT;
+    } else if (op == "sp.subspan_t") { // subspan<a, b>() with a < 6, b < 5 or npos (dynamic_extent)
+        bool dyn = b == static_cast<std::size_t>(-1);
+        impl = done([&] {
+            Vec o;
+            bool hit = with_const<6>(a, [&](auto ca) {
+                constexpr std::size_t A = decltype(ca)::value;
+                if (dyn) o = units(sp.template subspan<A>());
+                else with_const<5>(b, [&](auto cb) { o = units(sp.template subspan<A, decltype(cb)::value>()); });
+            });
+            if (!hit) std::exit(3);
+            return o;
+        });
+        oracle = (a <= n && (dyn || b <= n - a)) ? okstr(subv(a, dyn ? n - a : b), e) : ASSERT;
+    } else if (op == "sp.ctor_ext") { // span<char, ext> from (pointer, count) k=0 / a sized range k=1 / a span of dynamic extent k=2
+        std::size_t ext = SZ(l, "ext");
+        int k = static_cast<int>(l.i("k", 0));
+        etl::static_vector<char, 8> vec;
+        for (auto x : e) vec.push_back(static_cast<char>(x));
+        impl = done([&] {
+            Vec o;
+            bool hit = with_const<7>(ext, [&](auto c) {
+                constexpr std::size_t N = decltype(c)::value;
+                if (k == 0) { etl::span<char, N> t(hb.p, n); for (std::size_t i = 0; i < n && i < N; ++i) o.push_back(static_cast<unsigned char>(t.data()[i])); }
+                else if (k == 1) { etl::span<char const, N> t(vec); for (std::size_t i = 0; i < n && i < N; ++i) o.push_back(static_cast<unsigned char>(t.data()[i])); }
+                else { etl::span<char> const csp = sp; etl::span<char, N> t(csp); for (std::size_t i = 0; i < n && i < N; ++i) o.push_back(static_cast<unsigned char>(t.data()[i])); }
+            });
+            if (!hit) std::exit(3);
+            return o;
+        });
+        oracle = n == ext ? okstr(e, e) : ASSERT;
     } else return "bad-op\tbad-op";
     return both(impl, oracle);
 }
@@ -746,15 +794,17 @@ static std::string sc_ops(Line const& l)
         oracle = pos < static_cast<std::size_t>(w) ? okstr({}, {}) : ASSERT;
     } else if (op == "div_sat") {
         LL x = l.i("x"), y = l.i("y");
-        impl = in_child(nullptr, [&] { static volatile int sink; sink = etl::div_sat(static_cast<int>(x), static_cast<int>(y)); return okstr({}, {}); });
-        oracle = y != 0 ? okstr({}, {}) : ASSERT;
+        impl = in_child(nullptr, [&] { int q = etl::div_sat(static_cast<int>(x), static_cast<int>(y)); return okstr({static_cast<LL>(q)}, {}); });
+        // [numeric.sat]: y != 0; the truncated mathematical quotient, saturated to int (computed in 64 bits)
+        oracle = y != 0 ? okstr({std::max<LL>(-2147483648LL, std::min<LL>(2147483647LL, x / y))}, {}) : ASSERT;
     } else if (op == "day" || op == "month") {
         unsigned d = static_cast<unsigned>(l.i("d"));
         impl = in_child(nullptr, [&] {
             unsigned got = op == "day" ? static_cast<unsigned>(etl::chrono::day(d)) : static_cast<unsigned>(etl::chrono::month(d));
             return okstr({}, {static_cast<LL>(got)});
         });
-        oracle = d < 255 ? okstr({}, {static_cast<LL>(d)}) : ASSERT;
+        // day.hpp / month.hpp document "may hold any number in [0, 255]" ([time.cal.day]: no precondition, unspecified beyond)
+        oracle = d <= 255 ? okstr({}, {static_cast<LL>(d)}) : ASSERT;
     } else if (op == "stride") {
         std::string lay = l.str("l");
         std::size_t r   = SZ(l, "r");
